@@ -111,6 +111,7 @@ type Exec struct {
 	usedLemmas []string
 	curLemma    *Lemma
 	checkEval   map[*Clause]int
+	assertEval  map[*Clause]int
 	curLemmaEnv *Env
 	usedContracts map[string]bool
 	replay  *replayInfo
